@@ -1267,7 +1267,7 @@ CFG_S = {  # name: (epsg a, epsg b, lon/lat window when the anchor meridian is i
     "geo|utm33": (4326, 32633, (9.0, 21.0, 48.0, 66.0), 15.0),
     "merc|albers-au": (3857, 3577, (117.0, 147.0, -40.0, -20.0), 132.0),
     "utm55|albers-au": (32755, 3577, (141.0, 153.0, -40.0, -22.0), 147.0),
-    "geo|nztm": (4326, 2193, (167.0, 179.0, -47.0, -34.0), 173.0),
+    "geo|bng-uk": (4326, 27700, (-6.0, 2.0, 50.0, 59.0), -2.0),
 }
 C_SHAPE = (2000, 3000)
 P_SHAPES = {"small": (48, 256), "large": (1000, 2000)}  # (across the shared edge, along it)
@@ -1336,7 +1336,7 @@ def build_sliver(cfg, cside, edge, t32, mode, kpx, psize, depth):
         oa, ob = a[j] - depth * u, b[j] - ph / 2 * u
         short = (a[j] - float(a[q].max())) / u
     ox, oy = oa * ct + ob * st, oa * st - ob * ct
-    pA6 = (u * ct, u * st, ox, u * st, -u * ct, oy)
+    pA6 = tuple(float(v) for v in (u * ct, u * st, ox, u * st, -u * ct, oy))
     f = float(frac[j])
     if EDGES[int(eid[j])] != edge or min(f, 1 - f) < 1 / 128:
         apex = "apex-at-corner"
@@ -1357,7 +1357,7 @@ def gen_sliver(thorough):
                             for depth in DEPTHS_S:
                                 for direction in ("C-dst", "C-src"):
                                     for psize, kpx, padal in (("small", 0.5, ((None, None), (0, None), (2, None), (None, 16))),
-                                                              ("large", 0.5, ((None, None), (0, None))), ("large", 2.0, ((None, None),))):
+                                                              ("large", 0.5, ((None, None), (0, None))), ("small", 2.0, ((None, None),))):
                                         for pad, al in padal:
                                             yield (cfg, cside, edge, t32, mode, kpx, psize, depth, direction, pad, al)
     else:
@@ -1387,7 +1387,7 @@ def run_sliver(case):
         kw["align"] = al
     info = OV.compute_reproject_roi(src, dst, **kw)
     lens = "gap" if depth < 0 else ("inside-5pt-lens" if depth < short else "beyond-5pt-chord")
-    tag = f"sliver:{direction}:{mode}:{apex}:{lens}:pad={pad}:align={al}"
+    tag = f"sliver:{cfg}:{'ab'[cside == 'b']}-large:{direction}:{mode}:{apex}:{lens}:pad={pad}:align={al}"
     what = (f"src=GeoBox({sshape}, Affine{sA6}, EPSG:{es}); dst=GeoBox({dshape}, Affine{dA6}, EPSG:{ed}); compute_reproject_roi(src, dst, {kw}) "
             f"[{cfg}: the {'source' if direction == 'C-src' else 'destination'} is the large raster; the other one reaches {depth} of its pixels beyond "
             f"the outermost point of the large raster's {edge} edge, which a ring of 5 points per side underestimates by {short:.2f} px]")
@@ -1405,7 +1405,7 @@ def run_sliver(case):
 CFG_R = {  # name: (K epsg, F epsg, K pixel, K's x coordinate of the axis of symmetry, y of K's top edge)
     "laea-eu>geo": (3035, 4326, 5000.0, 4321000.0, 4210000.0),
     "albers-au>geo": (3577, 4326, 8000.0, 0.0, -1200000.0),
-    "utm33>geo": (32633, 4326, 2500.0, 500000.0, 7000000.0),
+    "utm33>geo": (32633, 4326, 1500.0, 500000.0, 7000000.0),
     "geo>albers-au": (4326, 3577, 0.08, 132.0, -12.0),
     "geo>laea-eu": (4326, 3035, 0.06, 10.0, 66.0),
     "merc>albers-au": (3857, 3577, 9000.0, 14694272.8, -1360000.0),
@@ -1470,7 +1470,7 @@ def run_ratio(case):
         kw["align"] = al
     info = OV.compute_reproject_roi(src, dst, **kw)
     bc = "bulge>100px" if bulge > 100 else "bulge-20-100px" if bulge > 20 else "bulge<20px"
-    tag = f"ratio:{direction}:{ratio}:{apex}:pad={pad}:align={al}"
+    tag = f"ratio:{cfg}:{edge}:{direction}:{ratio}:{apex}:pad={pad}:align={al}"
     what = (f"src=GeoBox({sshape}, Affine{sA6}, EPSG:{es}); dst=GeoBox({dshape}, Affine{dA6}, EPSG:{ed}); compute_reproject_roi(src, dst, {kw}) "
             f"[{cfg}: the {'destination' if direction == 'K->F' else 'source'} has pixels {ratio} of the other raster's and contains its {edge} edge, "
             f"which bulges by {bulge:.1f} of the finer pixels]")
@@ -1819,7 +1819,7 @@ def slices(tier):
                  "600-1000 px rasters in LAEA / Albers / UTM far from the meridian / Mercator vs lon/lat over the same window, both "
                  "directions: edges bulge by several pixels between five boundary samples"),
         e1.Slice("B-sliver", lambda: gen_sliver(th), run_sliver,
-                 "2000x3000 raster C (lon/lat, Mercator, Albers, LAEA, UTM, NZTM) and a raster in another CRS that reaches 0.6 .. 10.4 of its "
+                 "2000x3000 raster C (lon/lat, Mercator, Albers, LAEA, UTM, British grid) and a raster in another CRS that reaches 0.6 .. 10.4 of its "
                  "pixels beyond the outermost point of one curved edge of C (or stays 0.4 / 3 px short of it): overlap is a thin lens; "
                  "apex of the edge at k/32 of its length (window slid along the edge, or the other raster turned parallel to the edge "
                  "at that point), C as source and as destination; brute force over the destination window that can need data"),
@@ -1887,7 +1887,7 @@ def main(ctx):
               "other_pair": list(OTHER_H)},
         "sliver": {"configs": {k: list(v) for k, v in CFG_S.items()}, "curved_raster": C_SHAPE, "other_raster": P_SHAPES,
                    "depth_px": DEPTHS_S, "apex_position_32nds": "1..31 (quick: %s)" % (T32_QUICK,), "edges": EDGES,
-                   "other_pixel_in_curved_pixels": (0.5, 2.0), "padding_align": "(None,None),(0,None) (+ (2,None),(None,16) thorough)"},
+                   "other_pixel_in_curved_pixels": "0.5 (both sizes), 2.0 (small)", "padding_align": "(None,None),(0,None) (+ (2,None),(None,16) thorough)"},
         "ratio": {"configs": {k: list(v) for k, v in CFG_R.items()}, "coarse_raster": K_SHAPE, "pixel_ratios": list(RATIOS),
                   "fine_raster": f"band of +-{F_MARGIN} px around the curved edge, at most {F_MAX_ROWS} rows, up to ~7500 columns",
                   "apex_position_32nds": "1..31 (1/17: even ones; quick: subsets of %s)" % (T32_QUICK,)},
